@@ -26,8 +26,9 @@ type Prog struct {
 	// Funcs holds every function with a body that belongs to the package:
 	// declared functions, methods, anonymous functions, generic instances and
 	// the synthetic bound/thunk wrappers referenced from them.
-	Funcs  []*ssa.Function
-	byName map[string]*ssa.Function
+	Funcs    []*ssa.Function
+	byName   map[string]*ssa.Function
+	privMemo map[*ssa.Function]bool
 
 	cg        map[*ssa.Function][]cgEdge
 	cgIn      map[*ssa.Function][]cgEdge
@@ -118,6 +119,7 @@ func Load(dir, goarch string, tags string) (*Prog, error) {
 		return nil, fmt.Errorf("only %d functions loaded; expected the whole sctp package (>=400)", len(p.Funcs))
 	}
 	p.buildCallGraph()
+	curProg = p
 	return p, nil
 }
 
